@@ -323,7 +323,13 @@ func check(c Case) evid.Result {
 				cls = "string-prefix-sibling-of-selected-dir"
 				res.NonTrivial = true
 			}
-			sig := fmt.Sprintf("C32/%s:%s:%s", entry, cls, what)
+			sigCls := cls
+			if cls == "string-prefix-sibling-of-selected-dir" && !strings.HasPrefix(what, "not-marked-skip-worktree") {
+				// the sibling's flag is right; what is wrong with it is what is wrong with any
+				// other path outside the selection (e.g. a non-forced step not touching the worktree)
+				sigCls = "path-outside-selection"
+			}
+			sig := fmt.Sprintf("C32/%s:%s:%s", entry, sigCls, what)
 			if cls == "string-prefix-sibling-of-selected-dir" && strings.HasPrefix(what, "not-marked-skip-worktree") {
 				sig = sigSibling // one mechanism (Index.SkipUnless) behind every entry point
 			}
